@@ -195,6 +195,10 @@ def explore(project, sub, max_visits=24, max_paths=256):
     return done
 
 
+class Undecided(Exception):
+    pass
+
+
 class PathBudget(Exception):
     pass
 
@@ -205,14 +209,19 @@ class Mismatch(Exception):
         self.what, self.model, self.detail = what, model, detail
 
 
-def equivalent(project_a, sub_a, project_b, sub_b, assumptions=(), max_visits=24, stats=None, timeout_ms=20000):
+def equivalent(project_a, sub_a, project_b, sub_b, assumptions=(), max_visits=24, stats=None, timeout_ms=6000):
     """Check trace equivalence of two versions of a function for all initial states. Returns None or raises Mismatch.
 
     stats (dict) gets 'pairs', 'queries', 'solver_s' incremented.
     """
-    import time
     pa = explore(project_a, sub_a, max_visits)
     pb = explore(project_b, sub_b, max_visits)
+    return compare_paths(pa, pb, assumptions, stats, timeout_ms)
+
+
+def compare_paths(pa, pb, assumptions=(), stats=None, timeout_ms=6000):
+    """Compare two path sets (same symbolic inputs): every jointly feasible pair must have equal event traces."""
+    import time
     s = z3.Solver()
     s.set("timeout", timeout_ms)
     for a in assumptions:
@@ -231,7 +240,7 @@ def equivalent(project_a, sub_a, project_b, sub_b, assumptions=(), max_visits=24
         stats["queries"] = stats.get("queries", 0) + 1
         stats["solver_s"] = stats.get("solver_s", 0.0) + time.time() - t0
         if r == z3.unknown:
-            raise RuntimeError("solver returned unknown")
+            raise Undecided("solver returned unknown (timeout %d ms)" % timeout_ms)
         return r, m
 
     for x in pa:
